@@ -130,6 +130,10 @@ func (g *dgen) scalarText(typ string) string {
 	case "uint64":
 		return strconv.FormatUint(uint64(1+r.Intn(1<<30))*uint64(1+r.Intn(1000)), 10)
 	case "string":
+		if r.Intn(4) == 0 {
+			// texts that look like numbers: in a string field they are the text itself (YAML: written as plain scalars)
+			return numberLikeStrings[r.Intn(len(numberLikeStrings))]
+		}
 		return []string{"abc", "x", "hello", "w1", "Zed"}[r.Intn(5)]
 	case "bool":
 		return []string{"true", "false"}[r.Intn(2)]
@@ -393,8 +397,15 @@ func (w *ywriter) schemaFields(nodes []*dnode, ind string) {
 	}
 }
 
+var numberLikeStrings = []string{"007", "0x1F", "1_000", "+5", "0755", "1e3", "1.50", "02134"}
+
 func yamlScalar(typ, text string) string {
 	if typ == "string" {
+		for _, n := range numberLikeStrings {
+			if text == n {
+				return text // a plain (unquoted) scalar
+			}
+		}
 		return yq(text)
 	}
 	return text
